@@ -25,7 +25,7 @@ FUNCTIONS = ["strax.context.Context.copy_to_frontend", "Context._get_target_sf",
 BOUNDS = {
     "quick": "stored layouts of <=3 chunks / <=4 rows; copy with rechunk off / on (targets 1-2 rows) and a compressor "
              "change; rechunk on load with 1-2 row source size; stand-alone rechunker serial, to a new location and "
-             "in place (replace), also with the progress bar off and with a destination that resolves to the source; "
+             "in place (replace), also with the progress bar off and with a destination that resolves to the source (same path, parent, symbolic link, non-normalised path); "
              "a failing write of a solver-chosen output chunk in serial and pool mode; per-chunk jobs = every chunk of "
              "the dependency, merged with rechunk on/off; solver-chosen grouping, subset and order of merged jobs",
     "thorough": "<=4 chunks / <=5 rows; groupings of dependency chunks into jobs",
@@ -264,7 +264,11 @@ def run_standalone(L, obj, replace, target, compressor, base, pbar=True, dest="o
         kw["compressor"] = compressor
     if not replace:
         # dest="parent" / "self": the destination resolves to the source folder itself
-        kw["dest_directory"] = {"other": b, "parent": a, "self": src_dir}[dest]
+        # dest="link" / "dotdot": the same through a symbolic link / a non-normalised path (seed C16-3)
+        if dest == "link":
+            os.symlink(a, os.path.join(base, "lnk"))
+        kw["dest_directory"] = {"other": b, "parent": a, "self": src_dir, "link": os.path.join(base, "lnk"),
+                                "dotdot": os.path.join(base, "b", "..", "a")}[dest]
     refused = False
     try:
         summary = strax.rechunker(src_dir, **kw)
@@ -580,6 +584,9 @@ MUTANTS = [
          only="failwrite", old="    if saver.got_exception is not None:", new="    if False:"),
     dict(name="rechunker accepts its own source as destination (original defect F-C16e)", file="strax/storage/file_rechunker.py",
          only="standalone", old="    if os.path.realpath(dest_directory) == os.path.realpath(source_directory):", new="    if False:"),
+    dict(name="destination-is-source guard compares abspath, not realpath (seed C16-3: symbolic link)", file="strax/storage/file_rechunker.py",
+         only="standalone", old="    if os.path.realpath(dest_directory) == os.path.realpath(source_directory):",
+         new="    if os.path.abspath(dest_directory) == os.path.abspath(source_directory):"),
     dict(name="disabled progress bar used (original defect F-C16f)", file="strax/storage/file_rechunker.py",
          only="standalone", old="                if not pbar.disable:", new="                if True:"),
     dict(name="per-chunk groups merged in the order listed (original defect F-C16g)", file="strax/context.py",
@@ -613,7 +620,8 @@ OBLIGATIONS = [
                                                    for rp in (False, True) for t in (1, 2)] +
        [dict(layout=[2, 1], compressor="zstd", target=3), dict(layout=[2, 1], target=2, pbar=False),
         dict(layout=[1, 1], target=2, replace=True, pbar=False), dict(layout=[2, 1], target=2, dest="parent"),
-        dict(layout=[1, 1], target=1, dest="self")], nat_standalone, setup=_setup, witnesses=1),
+        dict(layout=[1, 1], target=1, dest="self"), dict(layout=[2, 1], target=2, dest="link"),
+        dict(layout=[1, 1], target=2, dest="dotdot")], nat_standalone, setup=_setup, witnesses=1),
     Ob("failwrite", sym_failwrite, lambda tier: [dict(layout=l, parallel=p) for l in ([1, 1], [2, 1]) for p in (False, "thread")],
        nat_failwrite, setup=_setup, witnesses=1,
        doc="a failing chunk write (solver-chosen chunk) during rechunker(replace=True): raises, source intact"),
